@@ -158,7 +158,8 @@ XML = ["<a>", "</a>", "<b x=\"1\">", "</b>", "<c y='2' z='3'/>", "<?pi d?>", "<!
        "<!DOCTYPE a>", "<!DOCTYPE b SYSTEM \"s\">", "<p:q xmlns:p=\"u\">", "</p:q>", "&amp;", "&#x41;", "<d xmlns=\"n\">",
        "</d>", "<e/>", "\n", "</>", "<a", "<?xml version=\"1.0\"?>", "t&lt;u", "<script/>", "<script>", "</script>",
        "<a x=\"1\" x=\"2\">", "<a p:x=\"1\" q:x=\"2\" xmlns:p=\"u\" xmlns:q=\"u\">", "<a p:x=\"1\" p:x=\"2\" xmlns:p=\"u\">",
-       "<a x=\"1\" p:x=\"2\">", "<a xmlns:p=\"u\" xmlns:p=\"v\">", "<template>", "</template>", "<r/>", "\0", "<a/><b/>"]
+       "<a x=\"1\" p:x=\"2\">", "<a xmlns:p=\"u\" xmlns:p=\"v\">", "<a xml:lang=\"en\" xml:lang=\"fr\"/>",
+       "<a xml:space=\"x\" y=\"1\" xml:space=\"z\">", "<a xmlns:x=\"u\" x:y=\"1\" x:y=\"2\"/>", "<a xml:id=\"1\" xml:id=\"1\">", "<template>", "</template>", "<r/>", "\0", "<a/><b/>"]
 
 RARE = ("append_before_sibling", "append_based_on_parent_node", "reparent_children", "add_attrs_if_missing",
         "get_template_contents", "remove_from_parent", "maybe_clone_an_option_into_selectedcontent",
@@ -221,8 +222,44 @@ DOC_SUFFIX = ["</body>", "</html>", "<!--z-->", " ", "x", "</html><!--y-->", "</
               "<!DOCTYPE late>", "</frameset>", "<noframes>", "</noframes>", "\n", "</html><frameset>", "</html><noframes>"]
 
 
+_ADJ_CACHE = {}
+
+
+def foreign_attr_names():
+    """attribute names the tree builder rewrites in foreign content, read from the Rust source at run time
+    (adjust_svg_attributes / adjust_mathml_attributes / adjust_foreign_attributes): two source names mapping to one
+    target name would hand the sink a duplicate"""
+    if "n" not in _ADJ_CACHE:
+        import re as _re, os as _os
+        names = set()
+        try:
+            src = open(_os.path.join(_os.environ.get("VERIF_REPO", "/repo"), "html5ever/src/tree_builder/mod.rs")).read()
+            for fn in ("adjust_svg_attributes", "adjust_mathml_attributes", "adjust_foreign_attributes"):
+                m = _re.search(r"fn %s.*?\n    }\n" % fn, src, _re.S)
+                if m:
+                    names.update(_re.findall(r'"([A-Za-z:]+)"', m.group(0)))
+        except OSError:
+            pass
+        _ADJ_CACHE["n"] = sorted(names) or ["viewbox", "xlink:href", "definitionurl"]
+    return _ADJ_CACHE["n"]
+
+
+def gen_foreign_attrs(rng):
+    names = foreign_attr_names()
+    el = rng.choice(["<svg>", "<svg><filter>", "<math>", "<svg><g>", "<math><mi>", "<svg><foreignObject><svg>"])
+    tag = rng.choice(["feDisplacementMap", "rect", "linearGradient", "mi", "g", "clipPath", "animate"])
+    k = rng.randint(2, 5)
+    base = rng.randrange(len(names))
+    # neighbours in the source table (copy-paste slips pair up adjacent rows) plus random ones
+    pick = [names[(base + i) % len(names)] for i in range(k)] if rng.random() < 0.6 else rng.sample(names, min(k, len(names)))
+    attrs = " ".join("%s=%s" % (n if rng.random() < 0.7 else n.lower(), i) for i, n in enumerate(pick))
+    return el + "<" + tag + " " + attrs + ">x"
+
+
 def gen_html_input(rng):
     r = rng.random()
+    if r < 0.06:
+        return gen_foreign_attrs(rng)
     if r < 0.10:
         s = T.gen_html(rng)
     elif r < 0.20:
